@@ -29,6 +29,7 @@ class SIITerminal(busmodel.TerminalModel):
         self.busy = 0
         self.addr = 0
         self.data = None
+        self.pending_data = None
         self.ncmd = 0
         self.reads = []
 
@@ -44,9 +45,15 @@ class SIITerminal(busmodel.TerminalModel):
             a = int(self.addr)
             self.reads.append(a)
             width = 8 if self.eight else 4
-            self.data = self.image[2 * a:2 * a + width]
+            new = self.image[2 * a:2 * a + width]
             if not self.eight:
-                self.data = self.data + E.bytes(f"junk{self.ncmd}", 4)
+                new = new + E.bytes(f"junk{self.ncmd}", 4)
+            # the data register keeps its previous content while the
+            # interface is busy and shows the new words once it is idle
+            if self.busy > 0:
+                self.pending_data = new
+            else:
+                self.data, self.pending_data = new, None
 
     def read_502(self, n):
         if self.busy > 0:
@@ -54,6 +61,8 @@ class SIITerminal(busmodel.TerminalModel):
             st = 0x8000
         else:
             st = 0
+            if self.pending_data is not None:
+                self.data, self.pending_data = self.pending_data, None
         if self.eight:
             st |= 0x40
         st = st | (E.int(f"st_other{self.ncmd}_{self.busy}", bits=16) & 0x3fbf
@@ -275,7 +284,8 @@ def main(tier, replay_file=None):
                          "(index 0) chosen by the solver",
                     outside="PDO layout read through SDO (mailbox terminals); "
                             "more categories / entries"),
-        stubs=["SII register model (0x502/0x504/0x508) per the ESC data sheet",
+        stubs=["SII register model (0x502/0x504/0x508) per the ESC data sheet; "
+               "while busy the data register keeps the previous read's words",
                "bus model at the datagram interface"])
     items = []
     maxws = 3 if quick else 4
